@@ -58,7 +58,7 @@ func runnerE2Gen(r *rand.Rand, tier string) any {
 		p.Targets[a].Deps = append(p.Targets[a].Deps, "//:nope")
 		sc.Mode = "unknown"
 	}
-	for k := 0; k < 1+r.IntN(2); k++ {
+	for k := 0; k < 1+r.IntN(3); k++ {
 		op := opSpec{Op: "build", Label: pickLabel(r, p), Always: r.IntN(4) == 0}
 		if r.IntN(3) == 0 {
 			for ti := range p.Targets {
@@ -67,6 +67,8 @@ func runnerE2Gen(r *rand.Rand, tier string) any {
 				}
 			}
 		}
+		// the REPL: run again on the project the previous build loaded
+		op.Keep = k > 0 && r.IntN(2) == 0
 		sc.Ops = append(sc.Ops, op)
 	}
 	return sc
@@ -243,6 +245,9 @@ func runnerE2Exec(prop string) func(any, *simcheck.Ctx) *simcheck.Violation {
 							rootOutcome = "failed"
 						}
 					}
+				}
+				if res.RunErr != nil && len(failed) == 0 && sc.Mode == "" {
+					return simcheck.V("wrong-run-result", "the build of %s returned %v although no body failed in this build and the graph has neither cycles nor unknown targets", op.Label, res.RunErr)
 				}
 				if rootOutcome == "ok" && res.RunErr != nil {
 					return simcheck.V("wrong-run-result", "the requested target %s succeeded but the build returned %v", op.Label, res.RunErr)
